@@ -7,6 +7,8 @@ CONSTANTS
   MaxRestart = 1
   Idem = 1
   MaxOps = 13
+  MaxRetry = 0
+  Stale = FALSE
 CONSTRAINT Bound
 VIEW View
 INVARIANT NeverBoth
